@@ -127,10 +127,47 @@ def _r6_r7(ctx, cg):
         ctx.check(len(sites) == 1, "R7", "limiter-created-once", "", "%d creation site(s)" % len(sites))
 
 
+FORGETTERS = ("clear", "remove", "remove_entry", "retain", "drain", "pop", "truncate", "insert", "replace", "take", "swap", "swap_remove",
+              "split_off", "shrink_to", "extract_if", "pop_front", "pop_back", "pop_first", "pop_last")
+
+
+def _r8_buckets_are_never_forgotten(ctx):
+    """R8 what a source has been charged stays charged until time pays it back: outside its constructor the limiter never removes,
+    replaces or re-creates a bucket (clear / remove / insert / take .. on whatever holds the buckets, or a fresh GenericTokenBucket
+    stored over an old one). A bucket that is forgotten comes back full, so anything that can make the limiter forget — other
+    sources filling a table, say — hands a cut-off source a new burst without any time having passed."""
+    P = ctx.P
+    n = 0
+    for b in P.bodies.values():
+        root = b.id.split("::{")[0]
+        if not root.startswith("erbium::dns::IpRateLimiter::") or root.endswith("::new") or "::test" in b.id:
+            continue
+        n += 1
+        ctx.saw(b)
+        bad = []
+        for bb, tm in b.calls():
+            nme = callee_name(tm) or ""
+            last = nme.rsplit("::", 1)[-1]
+            if last in FORGETTERS and tm["args"]:
+                pl = op_place(tm["args"][0])
+                ty = b.local_ty(pl[0]) if pl else ""
+                if "TokenBucket" in ty or "Bucket" in ty:
+                    bad.append("%s at %s" % (last, P.rel(tm["sp"])))
+            if nme.endswith("GenericTokenBucket::new") or (last == "default" and "TokenBucket" in nme):
+                bad.append("%s at %s" % (last, P.rel(tm["sp"])))
+        for _, bb, idx, st in find_aggs(P, "bucket::GenericTokenBucket", [b]):
+            bad.append("a new bucket at %s" % P.rel(st["sp"]))
+        ctx.check(not bad, "R8", "buckets-are-never-forgotten:%s" % root.rsplit("::", 1)[-1], ctx.where(b),
+                  "the limiter forgets or replaces bucket state: %s" % (bad or "-"))
+    if ctx.config in ("default", "dns"):
+        ctx.floor("R8", "functions of the limiter besides its constructor", n, 2)
+
+
 def run(ctx):
     P = ctx.P
     cg = callgraph(P)
     _r6_r7(ctx, cg)
+    _r8_buckets_are_never_forgotten(ctx)
     # "every refused query still gets an answer or a deliberate drop": a limiter task that waits for a lock it holds does neither
     ctx.include("C07", rules=("R11",))
     _r5_debt(ctx)
